@@ -349,7 +349,9 @@ theorem tie_consumer_loop : Gen.ListObjects.consumerRecvConds =
 of the visited map is `sourceUserObj#edge` -/
 theorem tie_execute_order : Gen.ListObjects.executeOrder =
     ["depth >= c.resolveNodeLimit", "visitedUsersetsMap.LoadOrStore", "trySendCandidate", "GetPrunedRelationshipEdges"] ∧
-    Gen.ListObjects.visitedKeyFormat = "\"%s#%s\", sourceUserObj, req.edge.String()" := by decide
+    Gen.ListObjects.visitedKeyFormat = "\"%s#%s\", sourceUserObj, req.edge.String()" ∧
+    Gen.ListObjects.flagAccumulation =
+      "intersectionOrExclusionInPreviousEdges || innerLoopEdge.TargetReferenceInvolvesIntersectionOrExclusion" := by decide
 
 /-- `readTuplesAndExecute`: a condition error is recorded and the loop continues; a false condition skips -/
 theorem tie_read_tuples_conds : Gen.ListObjects.readTuplesLoopConds =
